@@ -638,8 +638,12 @@ def rewrite_for_header(pat, expr, idx, spec):
 def splice_loops(body, loopspecs, log):
     """loopspecs: {ordinal: dict(index=, clauses=, before=, body_top=, body_bottom=, after=, elem=, ty=)}"""
     loops = find_loops(body)
-    for o in loopspecs:
+    for o in list(loopspecs):
         if o < 1 or o > len(loops):
+            if loopspecs[o].get('optional'):
+                log.append(f"loop {o}: not present in this text (optional loop contract skipped)")
+                del loopspecs[o]
+                continue
             raise ExtractError(f"anchor lost: loop {o} (function has {len(loops)} loops)")
     for ordinal in range(len(loops), 0, -1):
         lp = loops[ordinal - 1]
@@ -748,6 +752,15 @@ def extract_fn(repo, fnspec):
         body = b2
     if 'R4' in rules:
         body = r4_strip_tracing(body, log)
+    if 'R2a' in rules:
+        # R2a: a body that is the single expression `X.iter().all(|p| COND)` -> the defining short-circuit loop
+        m_ = re.fullmatch(r'\{\s*(' + PATH + r')\s*\.iter\(\)\s*\.all\(\|(\w+)\|\s*(.+?)\)\s*\}', body, re.S)
+        if not m_:
+            log.append("R2a not applicable: the body is not a single `X.iter().all(|p| cond)` expression (left as written)")
+        else:
+          seq_, p_, cond_ = m_.group(1), m_.group(2), m_.group(3).strip()
+          body = ('{\n        for ' + p_ + ' in ' + seq_ + '.iter() {\n            if !(' + cond_ + ') {\n                return false;\n            }\n        }\n        true\n    }')
+          log.append(f"R2a `{seq_}.iter().all(|{p_}| {cond_})` -> loop returning false at the first element that fails, true otherwise (definition of `all`)")
     if 'R8w' in rules:
         b2, k_ = re.subn(r'\s*\.await\b', '', body)
         if k_:
